@@ -134,7 +134,7 @@ pub fn run(ctx: &mut Ctx) {
     for (n, ok) in r3::selftest() {
         ctx.selftest(&n, ok);
     }
-    ctx.require(&["annex_kat", "len_sweep", "fixed_k_exact", "free_k", "roundtrip", "ref_made_decrypts", "openssl_made_decrypts", "all_zero_msg", "leading_zero_msg", "long_msg", "kdf", "kdf_klen_mod32=00", "c1c2c3_uncompressed", "c1c2c3_compressed", "c1c3c2_uncompressed", "c1c3c2_compressed", "klen_mod32=00", "key_from_constructor", "key_from_gen_keypair", "key_with_jacobian_public_point"]);
+    ctx.require(&["annex_kat", "len_sweep", "fixed_k_exact", "free_k", "roundtrip", "ref_made_decrypts", "openssl_made_decrypts", "all_zero_msg", "leading_zero_msg", "long_msg", "kdf_counter_beyond_16_bits", "kdf", "kdf_klen_mod32=00", "c1c2c3_uncompressed", "c1c2c3_compressed", "c1c3c2_uncompressed", "c1c3c2_compressed", "klen_mod32=00", "key_from_constructor", "key_from_gen_keypair", "key_with_jacobian_public_point"]);
     let c = r2::curve();
 
     // --- Annex example
@@ -211,7 +211,16 @@ pub fn run(ctx: &mut Ctx) {
         }
         let mut p = Prng::new(sub, "l");
         let d = rand_scalar(&mut p, &(&c.n - 1u32));
-        let len = if i % 6 == 0 { 65536 } else { p.range(301, 20000) };
+        // 2^21 + 100 bytes needs more than 65 536 KDF blocks (counter beyond 16 bits); 8 161 crosses 255 blocks
+        let len = match i % 12 {
+            0 => 65536,
+            6 => (1 << 21) + 100,
+            3 => 8161,
+            _ => p.range(301, 20000),
+        };
+        if len > (1 << 21) {
+            ctx.class("kdf_counter_beyond_16_bits");
+        }
         let msg = p.bytes(len);
         let k = rand_scalar(&mut p, &c.n);
         ctx.class("long_msg");
@@ -288,6 +297,20 @@ pub fn run(ctx: &mut Ctx) {
             match guard(|| gm_sm2::util::kdf(&z2, 32)) {
                 Outcome::Ret(v) if v == e => {}
                 o => ctx.violation(&format!("kdf:same-klen-consecutive:{}", if o.is_ret() { "wrong-bytes" } else { o.class() }), json!({"z": hx(&z2)})),
+            }
+        }
+    }
+    // --- KDF with block counters beyond 8 and 16 bits
+    if ctx.shard == ctx.nshards - 1 {
+        let mut pk = ctx.prng("kdf-big");
+        for klen in [8160usize, 8161, 8192, 65536 * 32 - 1, 65536 * 32, 65536 * 32 + 33] {
+            let z = pk.bytes(64);
+            ctx.eval();
+            ctx.class("kdf_big_klen");
+            let e = r3::kdf(&z, klen);
+            match guard(|| gm_sm2::util::kdf(&z, klen)) {
+                Outcome::Ret(v) if v == e => {}
+                o => ctx.violation(&format!("kdf:big-klen:{}", if o.is_ret() { "wrong-bytes" } else { o.class() }), json!({"z": hx(&z), "klen": klen})),
             }
         }
     }
